@@ -97,7 +97,7 @@ func fieldVals(rr dns.RR, steps []textStep) (string, bool) {
 			}
 		case "uint", "uintlax", "mnem", "uintalg", "uintttl", "hexgroups", "euitok", "nodeid":
 			out = append(out, fmt.Sprintf("n:%d", fv.Uint()))
-		case "name", "endstr", "endstrsplit", "tok", "octet", "tokstr", "salt":
+		case "name", "endstr", "endstrsplit", "tok", "tokne", "octet", "tokstr", "salt", "saltne":
 			out = append(out, "s:"+hexOrDash([]byte(fv.String())))
 		case "ipv4":
 			// a four-octet address (from the wire), or what net.ParseIP returned for one (sixteen octets)
@@ -251,6 +251,8 @@ func textStream(c *Ctx, per int) {
 			"ns h 1 1h 2d 3w 4m", "ns. h. 1h 1 1 1 1", "@ @ 4294967295 4294967295 1H1M 1w1d 0", "ns h 4294967296 1 1 1 1", "ns h 1 2 3 4 5 6", "ns h 1 2 3 4", "ns h 1 2 3 4 5x", "ns h 1 7102w 3 4 5",
 			"b. A MX TYPE65535 any Type12 tYPE12 XXXX12 TYPE65536 TYPE TYPE1x", "b.", "b. ", "b. A (\nMX ) ; c\n", "b. A ( MX", "b. A IN", "b. \"A\"", "b. A TYPE00012", "rel a mx", "b. A\tMX  aaaa",
 			"1 2 A MX", "1 2", "4294967295 65535 TYPE0 TYPE255 ANY", "1 65536 A", "4294967296 1 A", "1 2 A NOPE", "1 2 )", "1 ) 2 A", "1 2 A ) MX", "b. A ) MX", "b. A ;)",
+			"1 0 10 - 2t7b4g4vsa5smi47k61mv5bv1a22bojr A RRSIG", "1 0 10 AB 2t7b4g4vsa5smi47k61mv5bv1a22bojr", "1 0 10 ab 2T7B4G4VSA5SMI47K61MV5BV1A22BOJR TYPE65535 mx", "1 0 10 -", "1 0 10 - -", "1 0 10 \"\" 2t7b A",
+			"1 0 10 ab \"\" A", "1 0 65536 - 2t7b A", "256 0 1 - 2t7b A", "1 0 10 - 2t7b A )", "1 0 10 ) 2t7b A", "1 0 10 - 2t7b NOPE", "1 0 10 -- 2t7b", "1 0 10 abc 2t7b",
 			"PKIX 1 RSASHA256 YWJj", "pkix 1 8 YWJj", "1 1 8 YWJj", "65535 65535 255 YWJj", "65536 1 1 YWJj", "URI 0 ED25519 YWJj", "254 0 253 YWJj", "OID 1 PRIVATEOID YWJj", "PKIX 1 rsasha256 YWJj",
 			"PKIX 1 256 YWJj", "PKIX 1 RSASHA256", "PKIX 1 RSASHA256 YW Jj", "0PKIX 1 1 YWJj", "PKIX 1 RSASHA1-NSEC3-SHA1 YWJj", "PKIX 65536 8 YWJj", "PKIX x 8 YWJj", "IACPKIX 1 ECC-GOST YWJj", "01 1 08 YWJj",
 			"1.2.3.4", "01.2.3.4", "1.2.3.256", "1.2.3", "1.2.3.4.5", "::ffff:1.2.3.4", "1.2.3.4 x", "255.255.255.255", "0.0.0.0", "1..2.3", "1.2.3.4.",
